@@ -317,6 +317,7 @@ class Scenario:
 
     def op_cancel_group(self, tag):
         g = self.inp.sint(f'{tag}_group', options=self.sizes.dom('group'))
+        self.last_args = {'group': g if self.inp.concrete else g.e}
         _, bb = bo.front_end()
 
         def make(app):
@@ -328,7 +329,7 @@ class Scenario:
         if n2 <= 0:
             raise HarnessError('scenario has no room for a second update')
         self.begin('create_update')
-        outs = self.w.create_update('tokB', n2, 0)
+        outs = self.w.create_update('tokB', n2, self.sizes.G - 1 - self.g1)
         self.outcomes.append(('create_update2', outs))
         return outs
 
@@ -337,10 +338,31 @@ class Scenario:
         fe, _ = bo.front_end()
 
         def make(app):
-            specs, res = self.job_specs(1, n2, self.n1 + 1, 'u2', list(range(0, self.g1 + 1)), 2)
+            specs, res = self.job_specs(1, n2, self.n1 + 1, 'u2', list(range(0, self.sizes.G)), 2)
             self.w.job_resources = res
             return fe._create_jobs(dict(self.w.userdata), specs, 1, 2, app)
         return self.run_glue('create_jobs2', make)
+
+    def op_update2_groups(self, tag):
+        ng = self.sizes.G - 1 - self.g1
+        if ng <= 0:
+            raise HarnessError('scenario has no room for job groups in the second update')
+        fe, _ = bo.front_end()
+        import inspect
+        h = inspect.unwrap(fe.create_job_groups)
+        inp, w = self.inp, self.w
+
+        def make(app):
+            specs = []
+            for r in range(ng):
+                g = self.g1 + 1 + r
+                specs.append(bo.group_spec(r + 1, None))
+                specs[-1].pop('absolute_parent_id')
+                specs[-1]['absolute_parent_id'] = inp.choose(f'u2_parent_g{g}', list(range(0, g)))
+            req = w.request({'batch_id': '1', 'update_id': '2'}, specs)
+            req.app = app
+            return h(req, dict(w.userdata))
+        return self.run_glue('create_job_groups2', make)
 
     def op_update2_commit(self, tag):
         self.begin('commit2')
@@ -351,12 +373,13 @@ class Scenario:
     OPS = {
         'schedule': op_schedule, 'creating': op_creating, 'started': op_started, 'complete': op_complete,
         'unschedule': op_unschedule, 'deactivate': op_deactivate, 'activate': op_activate, 'cancel_group': op_cancel_group,
-        'u2_create': op_update2_create, 'u2_jobs': op_update2_jobs, 'u2_commit': op_update2_commit,
+        'u2_create': op_update2_create, 'u2_jobs': op_update2_jobs, 'u2_commit': op_update2_commit, 'u2_groups': op_update2_groups,
     }
 
     def apply(self, kind, idx):
         self.prev = self.db.copy()
         self.last_kind = kind
+        self.last_args = {}
         self.last_result = self.OPS[kind](self, f's{idx}_{kind}')
         return self.last_result
 
@@ -388,7 +411,7 @@ def solve_violation(sc, timeout_ms=120000, relaxed=False):
                 continue
             bad.append((f'{label}: {name}', z3.BoolVal(False) if e is False else e))
     if not bad:
-        raise HarnessError('no assertions recorded')
+        return 'unsat', None, None, 0.0   # every recorded assertion simplified to True
     s.add(z3.Or(*[z3.Not(e) for _, e in bad]))
     t = time.time()
     r = str(s.check())
